@@ -280,6 +280,31 @@ Definition fill_symbol (p : profile) (st : symtab) (mbase instr : Z) : outcome s
 (* minidump-unwind fill_source_line_info: frame.inlines.reverse() *)
 Definition frame_inlines (o : sym_out) : list iframe := rev (o_inl o).
 
+(* ------------------------------------------------------------------ Symbolizer level *)
+(* minidump-unwind fill_source_line_info: modules.module_at_address(frame.instruction) — the table
+   MinidumpModuleList::from_modules builds from the modules' memory_range() (C08 [build_indexed]) —
+   then Symbolizer::fill_symbol(module, frame): the SymbolFile the supplier has for that module
+   (None = no symbols: Err, nothing filled in) and SymbolFile::fill_symbol with that module's
+   base; finally the reversal.  A module is (base, size, its symbol table). *)
+Definition PANIC_MODIDX : Z := 1110.
+Definition module := (Z * Z * option symtab)%type.
+Definition mod_table (mods : list module) : outcome (list (range * Z)) :=
+  build_indexed (map (fun m : module => mk_range (fst (fst m)) (snd (fst m))) mods).
+
+Definition frame_of (p : profile) (tbl : list (range * Z)) (mods : list module) (instr : Z)
+  : outcome (option (Z * sym_out)) :=
+  match rm_get tbl instr with
+  | None => Ret None
+  | Some idx =>
+      match nth_error mods (Z.to_nat idx) with
+      | None => Panic PANIC_MODIDX
+      | Some (b, _, Some st) =>
+          do o <- fill_symbol p st b instr;
+          Ret (Some (idx, mk_out (o_func o) (o_src o) (frame_inlines o)))
+      | Some (_, _, None) => Ret (Some (idx, empty_out))
+      end
+  end.
+
 (* ------------------------------------------------------------------ parser.rs *)
 (* l.address.checked_add(l.size as u64 - 1), zero sizes filtered before *)
 Definition mk_range_line (base size : Z) : option range :=
